@@ -271,6 +271,21 @@ func init() {
 						if !yield(C09Case{Format: f, Subset: full(n), Class: class, Company: true}) {
 							return
 						}
+						// next to contents, conffiles, changelog and triggers: no slot, each slot alone, each slot missing
+						for i := 0; i <= n; i++ {
+							var sub uint
+							if i < n {
+								sub = 1 << uint(i)
+							}
+							if !yield(C09Case{Format: f, Subset: sub, Class: class, Company: true}) {
+								return
+							}
+							if i < n {
+								if !yield(C09Case{Format: f, Subset: full(n) &^ sub, Class: class, Company: true}) {
+									return
+								}
+							}
+						}
 					}
 				}
 			}
